@@ -56,10 +56,12 @@ def replay(info, ce):
                 return dict(status='confirmed', observed={'rows': rows, 'dt': dt, 'got': got.tolist(), 'expected': want.tolist()},
                             detail='get_max_tifq_vals_freq: the frequency reported for row r is not (rows - r)/(2 rows dt) for a transform with %d rows (records of %d or %d samples), dt=%g' % (rows, 2 * rows, 2 * rows + 1, dt),
                             input={'rows': rows, 'dt': dt, 'hot_rows': hot})
-            a = eqsig.AccSignal(np.zeros(2 * rows), dt)
-            a.swtf = S
-            got = np.asarray(stockwell.get_max_stockwell_freq(a))
-            if got.shape != want.shape or np.max(np.abs(got - want)) > 1e-9 * np.max(want):
-                return dict(status='confirmed', observed={'rows': rows, 'dt': dt, 'got': got.tolist(), 'expected': want.tolist()},
-                            detail='get_max_stockwell_freq: wrong frequency axis for a transform with %d rows, dt=%g' % (rows, dt), input={'rows': rows, 'dt': dt, 'hot_rows': hot})
+            for npts in (2 * rows, 2 * rows + 1):          # an odd-length record is truncated to even length by the transform: same rows
+                a = eqsig.AccSignal(np.zeros(npts), dt)
+                a.swtf = S
+                got = np.asarray(stockwell.get_max_stockwell_freq(a))
+                if got.shape != want.shape or np.max(np.abs(got - want)) > 1e-9 * np.max(want):
+                    return dict(status='confirmed', observed={'rows': rows, 'npts': npts, 'dt': dt, 'got': got.tolist(), 'expected': want.tolist()},
+                                detail='get_max_stockwell_freq: wrong frequency axis for a record of %d samples (transform with %d rows), dt=%g' % (npts, rows, dt),
+                                input={'rows': rows, 'npts': npts, 'dt': dt, 'hot_rows': hot})
     return dict(status='not-reproduced', detail='real Stockwell functions agree with the independent evaluation on the battery')
